@@ -31,7 +31,7 @@ if timeout 600 go test $RACE -vet=off -count=1 -run 'Demo|demo' . >/tmp/seedwt/$
 res "demo-with-change: $DC"
 rm -f zz_demo_test.go
 unset CGO_ENABLED
-cd /verif
+cd ${VERIF_DEV:-/verif}
 CAUGHT=""
 for C in $CHECKS; do
   VERIF_REPO=$WT timeout 1800 ./run $C quick >/tmp/seedwt/$N.check-$C.txt 2>&1; rc=$?
